@@ -15,7 +15,7 @@ def run(ctx):
 
     valcorr.cond_expr = biased
     try:
-        cases = valcorr.validation_cases(ctx, 50 if ctx.quick else 1200, unknown=0.0)
+        cases = valcorr.validation_cases(ctx, 60 if ctx.quick else 1400, unknown=0.0, revisit=0.4)
     finally:
         valcorr.cond_expr = orig
     valcorr.check_val_correspondence(ctx, cases, "C16")
@@ -46,7 +46,27 @@ def run(ctx):
         if len(rows) != len(rows2) or [r[0] for r in rows] != [r[0] for r in rows2]:
             ctx.fail(f"kann|{str(valcorr.describe(c))[:300]}", dict(valcorr.describe(c), kannified=sorted(subset)), f"same nodes reported: {[r[0] for r in rows2]}", f"{[r[0] for r in rows]}", "oracle: C16 same positions")
             continue
+        expr_of = {}
+
+        def collect(n):
+            if n[0] in ("G", "S", "F"):
+                expr_of[n[1]] = n[2]
+            if n[0] in ("G", "S"):
+                for ch in n[3]:
+                    collect(ch)
+
+        for n in c["lines"]:
+            collect(n)
         for r1, r2 in zip(rows, rows2):
+            x = expr_of.get(r1[0])
+            if x in invalid and r1[1] == "IS_OPTIONAL" and isinstance(r1[2], str):
+                # "with the reason as hint": the reason of THIS evaluation (current content evaluation result), not of an earlier one
+                valcorr.reset_cer(c)
+                want_reason = valcorr.invalid_message(cache.res[x])
+                if want_reason is not None and r1[2] != want_reason:
+                    ctx.fail(f"reason|{r1[0]}|{str(valcorr.describe(c))[:300]}", dict(valcorr.describe(c), node=r1[0]), f"hint {want_reason!r}", f"hint {r1[2]!r}",
+                             "oracle: the invalid node carries the reason of this evaluation as hint")
+                    break
             if r1 == r2:
                 continue
             # only the node that carried the invalid expression may differ: optional, a reason as hint
